@@ -302,7 +302,11 @@ After(e) ==
 Stage(e) ==
     /\ why' = why \cup Fails(<<
           <<IF e.b = 1 THEN (~stageOpen /\ e.a = stageCur + 1) ELSE (stageOpen /\ e.a = stageCur), "C15", "stages-not-strictly-sequential">>,
-          <<e.s = e.b2, "C15", "stage-parameters-not-in-environment-while-triggering">> >>)
+          <<e.s = e.b2, "C15", "stage-parameters-not-in-environment-while-triggering">>,
+          \* d = microseconds since the FIRST stage began; the trigger deadline runs from before that moment, and the
+          \* stage loop tests its context right before a stage begins: a stage that begins 100 ms past the deadline
+          \* was started on a dead context (100 ms: far beyond any lateness of the deadline timer)
+          <<e.b = 0 \/ e.d <= Deadline + 100000, "C05", "stage-begun-after-triggering-had-stopped">> >>)
     /\ stageCur' = e.a /\ stageOpen' = (e.b = 1)
     /\ stopSeen' = IF e.b = 1 THEN FALSE ELSE stopSeen
     /\ Unch(<<lmax, skipped, setupSeen, ids, liveIds, liveH, endedIds, cleaned, succT, failT, sumTicks, lateSum, dropSum, limitSeen, evals,
